@@ -134,13 +134,15 @@ def activateInitial (h : Nested) (m : Machine) (t : Trigger) : EM Unit :=
     let _ ← runGroup h m { t := t, src := none, tgt := s } .enter (stateDef m s).enter
     pure ()
 
-/-- `_trigger`; `none` = the sentinel returned for `__initial__` -/
-def trigger (h : Nested) (m : Machine) (t : Trigger) : EM (Option Res) :=
-  if t.event == initialEv then do
+/-- `_trigger`; `none` = the sentinel returned for `__initial__`. The reserved name is the
+activation trigger only while the model holds no state (after the repair of D23); afterwards it
+is an ordinary, undeclared event. -/
+def trigger (h : Nested) (m : Machine) (t : Trigger) : EM (Option Res) := do
+  let cfg ← EM.get
+  if t.event == initialEv && cfg.cur.isNone then do
     activateInitial h m t
     pure none
-  else do
-    let cfg ← EM.get
+  else
     match cfg.cur.bind (lookupState m) with
     | none => EM.throw .invalidState
     | some s =>
@@ -265,5 +267,22 @@ def stepOp (m : Machine) (o : Opts) (fuel : Nat) : Op → EM Res
 def runOps (m : Machine) (o : Opts) (fuel : Nat) : List Op → Cfg → Cfg
   | [], c => c
   | op :: ops, c => runOps m o fuel ops (stepOp m o fuel op c).1
+
+end SMV
+
+namespace SMV
+
+/-- keep the first occurrence of every element (`dict` insertion order in `unique_events`) -/
+def dedupe : List Nat → List Nat
+  | [] => []
+  | x :: xs => x :: (dedupe xs).filter (· != x)
+
+/-- `sm.allowed_events`: unique events of the current state's transitions, in order of first use -/
+def allowedEvents (m : Machine) (s : StateId) : List EventId :=
+  dedupe ((out m s).flatMap (·.events))
+
+/-- `sm.events`: every event bound to some transition (order of registration not modelled: a set) -/
+def allEvents (m : Machine) : List EventId :=
+  dedupe (m.states.flatMap fun sd => sd.trans.flatMap (·.events))
 
 end SMV
